@@ -174,12 +174,29 @@ def print_rule_pattern(rule, rng, defs, posix=False, noscs=False):
     return s
 
 
+def sc_declarations(scs, nrules=0):
+    """%s / %x lines for the conditions SC2, SC3, ...; for every other program consecutive conditions of one kind share a line
+    (the manual: '%s' or '%x' followed by a list of names)."""
+    lines = []
+    group = (len(scs) + nrules) % 2 == 0
+    for i, (name, excl) in enumerate(scs):
+        kw = "%x" if excl else "%s"
+        if group and lines and lines[-1].startswith(kw + " "):
+            lines[-1] += ("  " if i % 2 else "\t") + "SC%d" % (i + 2)
+        else:
+            lines.append("%s SC%d" % (kw, i + 2))
+    return lines
+
+
 def make_spec(prog, rng, options=None, actions=None, extra_top="", epilogue=None, prologue=None, backend='nr'):
     """Returns the text of a .l file for the program.  actions[i] overrides the
     default action `tok(i+1);` of rule i."""
     import backends
     defs = {}
     pats = [print_rule_pattern(r, rng, defs, posix=prog.get('posix', False)) for r in prog['rules']]
+    if prog.get('pats'):
+        # hand-written spellings (syntax corners the printer never produces): the text of rule i is pats[i] when given
+        pats = [(t if t is not None else p) for t, p in zip(prog['pats'], pats)]
     nrules = len(prog['rules'])
     out = []
     opts = ["noyywrap", "nounput", "noinput"] + backends.BACKENDS[backend]['options'] + list(options or [])
@@ -187,8 +204,7 @@ def make_spec(prog, rng, options=None, actions=None, extra_top="", epilogue=None
     out.append(prologue or backends.prologue(backend, nrules + 1, extra_top))
     for name in defs:
         out.append("%s %s" % (name, defs[name]))
-    for i, (name, excl) in enumerate(prog.get('scs', [])):
-        out.append("%s SC%d" % ("%x" if excl else "%s", i + 2))
+    out.extend(sc_declarations(prog.get('scs', []), nrules))
     out.append("%%")
     # start-condition scopes: a rule naming conditions [o] + inner is written  <o>{ <inner>{ rule }  next-rule-if-it-names-[o] }
     # (the manual: a scope is the same as prefixing each enclosed rule; nested scopes add their conditions)
